@@ -28,8 +28,8 @@ Holds(c, r) ==
                \A i \in 1..Len(tc) :
                   LET n == Cardinality({j \in 1..Len(df) : df[j].gen = tc[i].gen /\ df[j].type = tc[i].type})
                       nn == Cardinality({j \in 1..Len(df) : df[j].gen = tc[i].gen /\ df[j].type = tc[i].type \o "/nested"})
-                  IN /\ n = (IF tc[i].type \in {"D01", "D02", "D05", "D06", "D13", "D14"} THEN 1 ELSE 0)
-                     /\ nn = (IF tc[i].type \in {"D01", "D05", "D13"} THEN 1 ELSE 0)
+                  IN /\ n = (IF tc[i].type \in {"D01", "D02", "D05", "D06", "D13", "D14", "D25", "D26"} THEN 1 ELSE 0)
+                     /\ nn = (IF tc[i].type \in {"D01", "D05", "D13", "D25"} THEN 1 ELSE 0)
          (* ... after the package's last GenerateType / GenerateAliasType of that generator *)
          [] c = "C06_DefersAfterLastCall" ->
                \A i \in 1..Len(o.calls) : \A j \in 1..Len(o.calls) :
